@@ -144,7 +144,8 @@ def decide(pid, tier, seed):
         for t in tools:
             f = gi.func_at(t["line"]) if t["line"] else None
             changed_code = f is not None and g["splice"]["functions"].get(f["name"], {}).get("status") in ("transplanted", "quarantined", "uncontracted")
-            if f and f["mode"] == "exec" and not f["external_body"] and (changed_code or "not supported" in t["message"]
+            structural = any(v == "changed" for v in g["splice"]["types"].values()) or bool(g["splice"].get("uncontracted"))
+            if f and f["mode"] == "exec" and not f["external_body"] and (changed_code or structural or "not supported" in t["message"]
                                                                           or "unsupported" in t["message"].lower()
                                                                           or "does not yet support" in t["message"]):
                 # either Verus cannot read a construct of the body, or the body changed so much that
